@@ -1,20 +1,26 @@
 """C01 Replicas converge: the same committed log gives the same database on every node.
 (A) Replica.tla: a committed log of abstract requests [endpoint, transaction flag, statements]; a
-    statement is DDL, a write from the write templates of Rewrite.tla with at most one call site of
-    that spec's site space (function, time-value form, modifiers, case, gap before the parenthesis,
-    expression nesting, clause context -- minus what the property excludes), a failing statement or
-    a query; parameterised or not.  Submit rewrites at the HTTP layer (design of Rewrite.tla,
-    transcribed and, in the thorough tier, checked equal to Rewrite.tla over the whole site space by
-    ReplicaRewriteEq.tla) and appends; ApplyLive / SnapshotAt(i) / RestartReplay / Install(i) /
+    statement is DDL, a write from the write templates of Rewrite.tla with up to TWO call sites of
+    that spec's site space (function, time-value form incl. a fixed value and a column, modifiers,
+    case, gap before the parenthesis, expression nesting, clause context -- minus what the property
+    excludes) in one clause or in two clauses, in either order, a failing statement or a query;
+    parameterised or not.  Submit rewrites at the HTTP layer (design of Rewrite.tla: EVERY
+    must-rewrite call is replaced whatever the other calls of the statement are; transcribed and, in
+    the thorough tier, checked equal to Rewrite.tla over the whole one-site space and over pairs of
+    sites by ReplicaRewriteEq.tla) and appends; ApplyLive / SnapshotAt(i) / RestartReplay / Install(i) /
     Recover / AdvanceClock build one abstract database per apply path (live, follower, restart,
     install, recover) in which a statement's effect is a function of its replicated text iff no
     must-rewrite call survives, and otherwise records who applied it and when.  TLC checks Converge
     (paths that consumed the same prefix have equal databases), LogDeterministic and RewrittenIffMust
     exhaustively over a small request alphabet; one negative control per switch (RewriteAllSites,
-    RewriteOnEndpoint[execute|queued|request], SingleApplyPath) must violate Converge.
-(B) TLC -simulate on the same spec emits programs (6 requests, 1..3 statements each, random sites)
-    with their path schedules (snapshot points, where the late joiner comes in, where the follower
-    lags).  Every program is sent through the REAL HTTP front end of the leader of an in-process
+    RewriteOnEndpoint[execute|queued|request], SingleApplyPath, SiteIndependent) must violate Converge.
+(B) TLC -simulate on the same spec emits programs (6 requests, 1..3 statements each, random sites,
+    two of five statements with a second site) with their path schedules (snapshot points, where the
+    late joiner comes in, where the follower lags); ReplicaPairs.tla (same actions, fixed schedule)
+    enumerates programs of two-site statements covering EVERY ordered pair of the ten site kinds
+    (random, randomblob, time function at 'now' / without time value / on a fixed value / on a
+    column, strftime at 'now' / fixed, timediff with / without 'now') in two clauses and in one
+    clause, the other dimensions drawn by a hash of the seed.  Every program is sent through the REAL HTTP front end of the leader of an in-process
     cluster (/db/execute, /db/execute?queue&wait, /db/request, with and without ?transaction,
     positional / named parameters) and the database of every apply path built from the SAME raft log
     is compared with the live node's: two read-only replicas applying live (one lagging / catching
@@ -30,7 +36,7 @@
     same entry everywhere.
     Self-test (every run): a program sent with ?norwrandom&norwtime (excluded by the property) MUST be
     reported as diverging on the follower / install / restart / recover paths."""
-import collections, concurrent.futures, json, os, random, shutil, subprocess, vlib
+import collections, concurrent.futures, json, os, random, re, shutil, subprocess, vlib
 LEVEL = "model_checking"
 TECHNIQUE = ("TLA+ spec of apply paths over a grammar of SQL programs, TLC exhaustive with negative controls; TLC -simulate programs + "
              "schedules replayed through the real HTTP layer; live / follower / late joiner / restart / peers.json recovery databases built "
@@ -41,7 +47,25 @@ NEG = collections.OrderedDict([
     ("RewriteOnEndpoint[execute]", "Replica_neg_RewriteOnEndpoint_Execute.cfg"),
     ("RewriteOnEndpoint[queued]", "Replica_neg_RewriteOnEndpoint_Queued.cfg"),
     ("RewriteOnEndpoint[request]", "Replica_neg_RewriteOnEndpoint_Request.cfg"),
-    ("SingleApplyPath", "Replica_neg_SingleApplyPath.cfg")])
+    ("SingleApplyPath", "Replica_neg_SingleApplyPath.cfg"),
+    ("SiteIndependent", "Replica_neg_SiteIndependent.cfg")])
+# the site kinds whose ordered pairs the quick tier must have replayed (timediff pairs are generated as well)
+KINDS8 = ["random", "randomblob", "time-now", "time-omitted", "time-fixed", "time-column", "strftime-now", "strftime-fixed"]
+
+
+def pairs_cfg(ctx, variants):
+    """ReplicaPairs_gen.cfg with this run's seed and number of variants per first kind."""
+    src = open(os.path.join(vlib.SPECS, "ReplicaPairs_gen.cfg")).read().splitlines()
+    out = []
+    for l in src:
+        if l.strip().startswith("Seed ="):
+            l = "  Seed = %d" % (ctx.seed % 1000000)
+        elif l.strip().startswith("Variants ="):
+            l = "  Variants = %d" % variants
+        out.append(l)
+    p = os.path.join(ctx.scratch, "ReplicaPairs_run.cfg")
+    open(p, "w").write("\n".join(out) + "\n")
+    return p
 
 
 def build_shim(ctx):
@@ -137,6 +161,9 @@ def run(ctx):
         per_run = -(-nprog // gen_runs)
         f_gen = [ex.submit(vlib.tlc_cases, ctx, "Replica", "Replica_gen.cfg", simulate="num=%d" % (per_run + 4), depth=100,
                            seed=ctx.seed * 100 + i, timeout=2400, heap="2g") for i in range(gen_runs)]
+        variants = ctx.pick(2, 12)
+        f_pairs = ex.submit(vlib.tlc_cases, ctx, "ReplicaPairs", "ReplicaPairs_run.cfg", files={pairs_cfg(ctx, variants): "ReplicaPairs_run.cfg"},
+                            timeout=2400, heap="2g")
         f_mc = ex.submit(vlib.tlc_mc, ctx, "Replica", "Replica_mc_full.cfg" if ctx.thorough else "Replica_mc.cfg",
                          workers=4, timeout=3000, heap="4g")
         f_eq = ex.submit(vlib.tlc, ctx, "ReplicaRewriteEq", "ReplicaRewriteEq.cfg", workers=1, coverage=False, timeout=2400, heap="4g") if ctx.thorough else None
@@ -157,13 +184,28 @@ def run(ctx):
             raise vlib.Undecided("the generator produced only %d complete behaviours" % len(cases))
         for i, c in enumerate(cases):
             c["id"] = "p%d" % i
+        pcases, rp = f_pairs.result()
+        pcases = [c for c in pcases if "prog" in c]
+        if len(pcases) != 10 * variants:
+            raise vlib.Undecided("ReplicaPairs produced %d programs, expected %d" % (len(pcases), 10 * variants))
+        # TLC prints them in the order the breadth-first search completes them: order by content, then shuffle by seed
+        pcases.sort(key=lambda c: json.dumps(c, sort_keys=True))
+        random.Random(ctx.seed).shuffle(pcases)
+        for i, c in enumerate(pcases):
+            c["id"] = "q%d" % i
+        ctx.add("states", rp["distinct"])
+        ctx.add("transitions", rp["generated"])
+        ctx.cov.setdefault("tlc_models", []).append({"module": "ReplicaPairs", "cfg": "ReplicaPairs_gen.cfg (Seed=%d, Variants=%d)" % (ctx.seed, variants),
+                                                     "distinct": rp["distinct"], "generated": rp["generated"], "depth": rp["depth"], "wall_s": rp["wall_s"]})
         groups = [selftest_group(), ext_group()]
+        for gi in range(0, len(pcases), per_group):
+            groups.append({"id": "gq%d" % (gi // per_group), "cases": pcases[gi:gi + per_group], "norw": False, "snap_half": True})
         for gi in range(0, len(cases), per_group):
             groups.append({"id": "g%d" % (gi // per_group), "cases": cases[gi:gi + per_group], "norw": False, "snap_half": True})
         inp = os.path.join(ctx.scratch, "groups.ndjson")
         out = os.path.join(ctx.scratch, "results.ndjson")
         vlib.write_nd(inp, groups)
-        must = ctx.pick(len(groups), 2 + 30)
+        must = ctx.pick(len(groups), 2 + len(pcases) // per_group + 30)
         p = ctx.run_harness(["replica-replay", "-in", inp, "-out", out, "-dir", ctx.sub("replay"), "-shim", shim, "-par", str(ctx.pick(6, 4)),
                              "-must", str(must), "-budget", ctx.pick("150s", "900s")], timeout=ctx.pick(1500, 4000))
         st = json.loads(p.stdout.strip().splitlines()[-1])
@@ -174,7 +216,12 @@ def run(ctx):
             r = f_eq.result()
             if not r["ok"]:
                 raise vlib.Undecided("Replica.tla's transcription of the rewriter design differs from Rewrite.tla:\n" + r["out"][-3000:])
-            ctx.cov["rewrite_spec_equivalence"] = "ReplicaRewriteEq: MustRewrite / Excluded / NonDet / Replaced equal to Rewrite.tla on 23 slots x 9504 sites, both switch values"
+            m = re.search(r'<<"ReplicaRewriteEq", (\d+), (\d+), (\d+), (\d+)>>', r["out"])
+            if not m:
+                raise vlib.Undecided("ReplicaRewriteEq did not print its sizes:\n" + r["out"][-2000:])
+            ctx.cov["rewrite_spec_equivalence"] = ("ReplicaRewriteEq: MustRewrite / Excluded / NonDet / Replaced equal to Rewrite.tla on %s slots x %s sites, and "
+                                                   "per-site Replaced / Must of two-site statements on %s slot pairs x %s^2 ordered pairs of representative sites, both switch values"
+                                                   % m.groups())
         for f in f_neg:
             f.result()
 
@@ -203,14 +250,16 @@ def run(ctx):
 
     # ---- verdicts
     tot = collections.Counter()
+    kind_pairs = collections.Counter()
     skipped, retried = [], []
     viol = {}     # key -> first divergence
     nkeys = collections.Counter()
     for r in good:
         if r["group"] == "selftest":
             continue
-        for k in ("comparisons", "requests", "statements", "must_sites", "rewritten", "snapshots", "installs", "entries_compared"):
+        for k in ("comparisons", "requests", "statements", "must_sites", "two_site_statements", "rewritten", "snapshots", "installs", "entries_compared"):
             tot[k] += r.get(k) or 0
+        kind_pairs.update(r.get("kind_pairs") or {})
         tot["programs"] += len(r["programs"])
         tot["programs_with_surviving_call"] += sum(1 for pr in r["programs"] if pr.get("survivors"))
         tot["unexpected_statement_errors"] += sum(pr.get("unexpected_errors") or 0 for pr in r["programs"])
@@ -229,6 +278,13 @@ def run(ctx):
                     ctx.cov["refused_or_failed_statements"].append({"case": pr["id"], "errors": pr["http_errors"][:3]})
     if len(skipped) > max(2, tot["paths_built"] // 20):
         raise vlib.Undecided("%d apply paths could not be built, e.g. %s" % (len(skipped), skipped[:3]))
+
+    # every ordered pair of site kinds must have been sent (and its databases compared), in two clauses and in one
+    missing = ["%s+%s:%s" % (a, b, cl) for a in KINDS8 for b in KINDS8 for cl in ("same", "other") if not kind_pairs.get("%s+%s:%s" % (a, b, cl))]
+    if missing:
+        raise vlib.Undecided("ordered pairs of site kinds that were not replayed: %s" % missing[:8])
+    ctx.cov["two_site_statements"] = {"statements": tot["two_site_statements"], "ordered_kind_pairs_x_clause": len(kind_pairs),
+                                      "least_covered": sorted(kind_pairs.items(), key=lambda kv: kv[1])[:3]}
 
     # a divergence that is not a recorded finding is re-run from scratch, alone, before it is reported
     new = {k: d for k, d in viol.items() if not vlib.match_known(ctx.pid, k)}
